@@ -1586,9 +1586,12 @@ class ActiveSelectorBasic:
         if transition_compared_to_match == 2:
             return
         elif transition_compared_to_match in [0, 1]:
-            _add_transition_sorted(results['transitions'], transition)
             if transition_compared_to_match == 0:
                 results['startTransitionFound'] = True
+                # Start at the start of the ZoneMatch, like the latest prior.
+                transition.originalTransitionTime = transition.transitionTime
+                transition.transitionTime = match.startDateTime
+            _add_transition_sorted(results['transitions'], transition)
         else:  # transition_compared_to_match < 0:
             # If a Transition exists on the start bounary of the ZoneMatch,
             # then we don't need to search for the latest prior.
@@ -1626,7 +1629,11 @@ class ActiveSelectorInPlace:
         for transition in transitions:
             prior = self._process_transition(match, transition, prior)
 
-        if prior and prior.transitionTime < match.startDateTime:
+        # Same as ExtendedZoneProcessor::selectActiveTransitions(): a Transition
+        # exactly at the start of the ZoneMatch is shifted as well, because its
+        # 'w' time was derived from the prior rule of its own policy instead of
+        # the UTC offset in effect at the end of the previous ZoneEra.
+        if prior:
             prior.originalTransitionTime = prior.transitionTime
             prior.transitionTime = match.startDateTime
 
